@@ -5,8 +5,9 @@
 ** /dev/shm, fallback: the instance's cwd; removed at the end, and by a janitor child if
 ** the harness dies).  Breadth-first search over histories of
 **   sopen(path, mode) / sclose / stell / seof / sflush / swrite(chunk) / sread(n) /
-**   sseek(origin, offset) / print_to / scan_from / with (f in file) { inner } /
-**   del + re-create (raw, collector-managed, constructor-open).
+**   sseek(origin, offset) / sseek(stell, SEEK_SET) / print_to / scan_from /
+**   with (f in file) { inner } / del + re-create (raw, collector-managed, constructor-open) /
+**   environment: another stream appends a byte to the open file.
 **
 ** Three independent views of every history:
 **   1. the real File object (Cello, /repo/src/File.c) on files r0, r1;
@@ -33,6 +34,9 @@
 **
 ** Parameters: depth=N  first=<ops> | notfirst=<ops> (partition of the history space by
 ** the first operation; comma separated alphabet indices)  alpha=full|lite  whitebox=1|0
+**             probe=1|0 (seof/stell compared with the twin after every transition)
+**             concrete=1|0 (state key refined by the real stream's libc bookkeeping when it
+**             differs from the twin's)
 */
 
 #include "vf_bfs.h"
@@ -214,13 +218,14 @@ static const size_t rdlen[4] = { 0, 1, 3, BIG };
 static const int origins[3] = { SEEK_SET, SEEK_CUR, SEEK_END };
 static const char* originname[3] = { "SEEK_SET", "SEEK_CUR", "SEEK_END" };
 static const int offsets[3] = { 0, 1, -1 };
+#define OFF_CURPOS 3            /* sseek(f, <current position>, SEEK_SET): a seek that moves nowhere */
 #define REC "k 42;"
 #define RECLEN 5
 #define RECFMT "%s %li;"
 
 enum { K_SOPEN, K_SCLOSE, K_STELL, K_SEOF, K_SFLUSH, K_SWRITE, K_SREAD, K_SSEEK, K_PRINT, K_SCAN, K_EMPTY };
 struct prim { int kind, a, b; };
-enum { T_PLAIN, T_WITH, T_DELNEW };
+enum { T_PLAIN, T_WITH, T_DELNEW, T_ENV };
 struct op { int type; struct prim p; int variant; char name[64]; char kname[32]; };
 #define MAXOPS 96
 static struct op ops[MAXOPS];
@@ -229,13 +234,14 @@ static int nops;
 static unsigned char rbuf[BIG + GUARD], tbuf[BIG + GUARD];
 static volatile int64_t g_ret;   /* integer result of the real call */
 static volatile var g_retp;      /* pointer result of the real call */
+static volatile int pr_eof;
 
-static int nsteps, bad_exec, whitebox = 1;
+static int nsteps, bad_exec, whitebox = 1, concrete = 1, probe = 1;
 static int nt_flag;
 static unsigned char firstmask[MAXOPS]; static int have_first;
 
 /* evidence counters */
-static uint64_t n_readback_bytes, n_closed_ops, n_disk_compares, n_scan_ok, n_with_exit, n_cfail, n_fclose_seen, n_fopen_seen;
+static uint64_t n_readback_bytes, n_closed_ops, n_disk_compares, n_scan_ok, n_with_exit, n_cfail, n_fclose_seen, n_fopen_seen, n_env, n_diverged, n_probes;
 
 static struct { int fclose, fopen, silent; } E;   /* expectations for the operation in progress */
 static char site[96];
@@ -379,10 +385,14 @@ static int prim_enabled(const struct prim* p) {
   case K_SREAD:
     /* also on write-only streams: glibc's large fread discards pending output before it fails */
     if (M.last == LAST_WRITE) return 0;
+    /* end-of-file indicator set but the file has grown since (other stream): whether a read
+       transfers anything before the indicator is cleared is the C library's business
+       (glibc: sticky for small reads, not for large ones); the in-contract path seeks first */
+    if (M.eof && (size_t)M.pos < M.f[M.path].len && rdlen[p->a] > 0) return 0;
     return 1;
   case K_SCAN:
     if (!READABLE(M.mode)) return 0;
-    if (M.last == LAST_WRITE) return 0;
+    if (M.last == LAST_WRITE || M.eof) return 0;
     return record_at_pos();                    /* in-contract use: a printed record starts here */
   default: return 1;
   }
@@ -398,7 +408,7 @@ static void prim_real(const struct prim* p, var f) {
   case K_SFLUSH: sflush(f); break;
   case K_SWRITE: g_ret = (int64_t)swrite(f, (void*)chunkp[p->a], chunklen[p->a]); break;
   case K_SREAD:  g_ret = (int64_t)sread(f, rbuf, rdlen[p->a]); break;
-  case K_SSEEK:  sseek(f, offsets[p->b], origins[p->a]); break;
+  case K_SSEEK:  sseek(f, p->b == OFF_CURPOS ? M.pos : offsets[p->b], origins[p->a]); break;
   case K_PRINT:  g_ret = print_to(f, 0, RECFMT, $S("k"), $I(42)); break;
   case K_SCAN:   g_ret = scan_from(f, 0, RECFMT, SK, IV); break;
   case K_EMPTY:  break;
@@ -551,14 +561,15 @@ static int prim_after(const struct prim* p, var e) {
 
   case K_SSEEK: {
     int64_t base = p->a == 0 ? 0 : p->a == 1 ? M.pos : (int64_t)mf->len;
-    int64_t target = base + offsets[p->b];
-    int tv = fseek(T, offsets[p->b], origins[p->a]);
+    int64_t off = p->b == OFF_CURPOS ? M.pos : offsets[p->b];
+    int64_t target = base + off;
+    int tv = fseek(T, (long)off, origins[p->a]);
     if ((tv != 0) != (target < 0)) infra("fseek twin %d, model target %" PRId64, tv, target);
     if (target < 0) {           /* before the start of the file: C-library-defined failure, nothing demanded */
       n_cfail++;
       return VF_OK;
     }
-    if (e != NULL) return V("raised", "sseek(%d, %s) to position %" PRId64 " raised %s, fseek on the twin succeeds", offsets[p->b], originname[p->a], target, vf_exc_name(e));
+    if (e != NULL) return V("raised", "sseek(%" PRId64 ", %s) to position %" PRId64 " raised %s, fseek on the twin succeeds", off, originname[p->a], target, vf_exc_name(e));
     M.pos = target; M.eof = 0; M.last = LAST_NONE;
     return VF_OK; }
 
@@ -675,6 +686,49 @@ static int apply_delnew(struct op* o) {
   return ledger_post() ? VF_BAD : VF_OK;
 }
 
+/* environment: another stream (a plain FILE* of the harness, not the File under test) appends one
+   byte to the file the File has open, and closes.  Enabled only while the File has no pending
+   output, so that the order of the bytes on disk is defined.  A reader sitting at end-of-file must
+   see the new byte after its next successful seek (which clears the end-of-file indicator). */
+static int apply_env(struct op* o) {
+  if (!M.open || M.last == LAST_WRITE) return VF_SKIP;
+  set_site(o->kname);
+  ledger_reset();
+  const char* paths[2] = { rpath[M.path], tpath[M.path] };
+  for (int i = 0; i < 2; i++) {
+    FILE* w = __real_fopen(paths[i], "ab");
+    if (!w || __real_fwrite("z", 1, 1, w) != 1 || __real_fclose(w) != 0) { fprintf(stderr, "h_file: cannot append to %s\n", paths[i]); rm_scratch(); _exit(2); }
+  }
+  struct mfile* mf = &M.f[M.path];
+  mf_write(mf, mf->len, "z", 1);
+  n_env++;
+  return VF_OK;
+}
+
+/* Key refinement (never a verdict): glibc's bookkeeping of the File's stream (the handle the
+   interposer saw it open) against the twin's.  They receive the same calls, so on a correct
+   library they are equal and nothing is added to the key.  If they differ, the real stream is in a
+   concrete state the model does not describe (e.g. a seek that was not forwarded): that state
+   must not be merged with the model state, it is explored on its own. */
+static char divergence[200];
+static size_t stream_summary(FILE* f, char* buf, size_t cap) {
+#ifdef __GLIBC__
+  return (size_t)snprintf(buf, cap, "fl%x r%td/%td w%td/%td b%td o%lld", (unsigned)(f->_flags & 0xFFFF & ~0x80),
+    f->_IO_read_ptr - f->_IO_read_base, f->_IO_read_end - f->_IO_read_base,
+    f->_IO_write_ptr - f->_IO_write_base, f->_IO_write_end - f->_IO_write_base,
+    f->_IO_buf_end - f->_IO_buf_base, (long long)f->_offset);
+#else
+  (void)f; return (size_t)snprintf(buf, cap, "-");
+#endif
+}
+static void compute_divergence(void) {
+  divergence[0] = 0;
+  if (!concrete || !M.open || !T || nlive != 1) return;
+  char a[96], b[96];
+  stream_summary(live[0], a, sizeof a); stream_summary(T, b, sizeof b);
+  if (strcmp(a, b) != 0) { snprintf(divergence, sizeof divergence, " real-stream{%s}!=twin{%s}", a, b); n_diverged++; }
+}
+
 static int apply(int opi) {
   struct op* o = &ops[opi];
   if (have_first && nsteps == 0 && !vf.replay && !firstmask[opi]) return VF_SKIP;
@@ -683,9 +737,10 @@ static int apply(int opi) {
   switch (o->type) {
   case T_PLAIN:  r = apply_plain(o); break;
   case T_WITH:   r = apply_with(o); break;
+  case T_ENV:    r = apply_env(o); break;
   default:       r = apply_delnew(o); break;
   }
-  if (r != VF_SKIP) nsteps++;
+  if (r != VF_SKIP) { nsteps++; compute_divergence(); }
   if (r == VF_BAD) bad_exec = 1;
   return r;
 }
@@ -700,8 +755,26 @@ static int check(void) {
     bad_exec = 1; return 1;
   }
   if (f && M.open && nlive == 1 && f->file != live[0]) { vf_violation(LB("handle-field-foreign"), NULL, "struct File .file is not the stream the File opened"); bad_exec = 1; return 1; }
-  if (T && (feof(T) ? 1 : 0) != M.eof) infra("feof twin %d model %d after the operation", feof(T) ? 1 : 0, M.eof);
   if ((T != NULL) != (M.open != 0)) infra("twin open %d model open %d", T != NULL, M.open);
+  if (T && probe) {
+    /* what the API shows of the stream state is compared after EVERY transition, not only when
+       seof/stell happen to be the next operation of a history: the state key is the reference
+       model, so a real stream that has silently departed from it (e.g. end-of-file indicator not
+       cleared by a seek that moved nowhere) would otherwise be merged with the model state and
+       only ever be observed from that state's shortest history.  check() is the last thing done
+       with the objects of an execution, replays never run it between operations. */
+    ledger_reset();
+    g_ret = -777; pr_eof = -1;
+    var e = LIB({ pr_eof = seof(F) ? 1 : 0; g_ret = stell(F); });
+    int te = feof(T) ? 1 : 0; long tt = ftell(T);
+    if (te != M.eof) infra("feof twin %d model %d after the operation", te, M.eof);
+    if (tt != M.pos) infra("ftell twin %ld model %" PRId64 " after the operation", tt, M.pos);
+    n_probes++; vf.evaluations++;
+    if (ledger_fault()) { bad_exec = 1; return 1; }
+    if (e != NULL) { V("then-seof-stell-raised", "seof/stell right after the operation raised %s", vf_exc_name(e)); bad_exec = 1; return 1; }
+    if (pr_eof != te) { V("then-seof-differs", "seof right after the operation = %d, feof on the twin stream = %d", (int)pr_eof, te); bad_exec = 1; return 1; }
+    if (g_ret != tt) { V("then-stell-differs", "stell right after the operation = %" PRId64 ", ftell on the twin stream = %ld", (int64_t)g_ret, tt); bad_exec = 1; return 1; }
+  }
   return 0;
 }
 
@@ -714,7 +787,7 @@ static void reset(void) {
   T = NULL;
   nlive = 0;
   make_file();
-  nsteps = 0; bad_exec = 0; nt_flag = 0;
+  nsteps = 0; bad_exec = 0; nt_flag = 0; divergence[0] = 0;
   snprintf(site, sizeof site, "file/init/closed"); vf.phase = site;
 }
 
@@ -753,6 +826,7 @@ static size_t canon(char* buf, size_t cap) {
   o += canon_file(&M.f[0], buf + o, cap - o);
   o += snprintf(buf + o, cap - o, " f1=");
   o += canon_file(&M.f[1], buf + o, cap - o);
+  if (divergence[0]) o += snprintf(buf + o, cap - o, "%s", divergence);
   return o;
 }
 
@@ -771,7 +845,10 @@ static void prim_name(const struct prim* p, char* name, size_t ncap, char* kname
   case K_SFLUSH: snprintf(name, ncap, "sflush"); snprintf(kname, kcap, "sflush"); break;
   case K_SWRITE: snprintf(name, ncap, "swrite(%s)", chunkname[p->a]); snprintf(kname, kcap, "swrite-%zu", chunklen[p->a]); break;
   case K_SREAD:  snprintf(name, ncap, "sread(%zu)", rdlen[p->a]); snprintf(kname, kcap, "sread-%zu", rdlen[p->a]); break;
-  case K_SSEEK:  snprintf(name, ncap, "sseek(%d,%s)", offsets[p->b], originname[p->a]); snprintf(kname, kcap, "sseek-%s", originname[p->a]); break;
+  case K_SSEEK:
+    if (p->b == OFF_CURPOS) { snprintf(name, ncap, "sseek(stell,%s)", originname[p->a]); snprintf(kname, kcap, "sseek-%s-curpos", originname[p->a]); }
+    else { snprintf(name, ncap, "sseek(%d,%s)", offsets[p->b], originname[p->a]); snprintf(kname, kcap, "sseek-%s", originname[p->a]); }
+    break;
   case K_PRINT:  snprintf(name, ncap, "print_to(\"%s\",\"k\",42)", RECFMT); snprintf(kname, kcap, "print_to"); break;
   case K_SCAN:   snprintf(name, ncap, "scan_from(\"%s\")", RECFMT); snprintf(kname, kcap, "scan_from"); break;
   case K_EMPTY:  name[0] = 0; kname[0] = 0; break;
@@ -828,6 +905,9 @@ static void build_alphabet(int lite) {
   if (!lite) add_delnew(1, 0, 0);
   add_delnew(2, 0, M_RP);
   if (!lite) add_delnew(2, 1, M_WP);
+  add_plain(K_SSEEK, 0, OFF_CURPOS);           /* sseek(f, stell(f), SEEK_SET) */
+  { struct op* o = &ops[nops++]; memset(o, 0, sizeof *o); o->type = T_ENV;
+    snprintf(o->name, sizeof o->name, "other-stream-appends(\"z\")"); snprintf(o->kname, sizeof o->kname, "env-append"); }
 }
 
 static void parse_first(const char* s, int value) {
@@ -855,6 +935,8 @@ int main(int argc, char** argv) {
   if (fs) { have_first = 1; parse_first(fs, 1); }
   else if (nfs) { have_first = 1; memset(firstmask, 1, sizeof firstmask); parse_first(nfs, 0); }
 
+  concrete = (int)vf_param_i("concrete", 1);   /* 0: state key = model only */
+  probe = (int)vf_param_i("probe", 1);         /* 0: no seof/stell comparison after every transition */
   whitebox = (int)vf_param_i("whitebox", 1);   /* 0: no look at the public struct File field, API oracles only */
   make_scratch();
   SK = new_raw(String, $S("")); resize(SK, 100);
@@ -875,6 +957,9 @@ int main(int argc, char** argv) {
   vf_extra("on_disk_comparisons", "%" PRIu64, n_disk_compares);
   vf_extra("with_blocks_left", "%" PRIu64, n_with_exit);
   vf_extra("c_library_defined_failures_mirrored", "%" PRIu64, n_cfail);
+  vf_extra("other_stream_appends", "%" PRIu64, n_env);
+  vf_extra("state_probes_seof_stell", "%" PRIu64, n_probes);
+  vf_extra("real_stream_differs_from_twin_stream", "%" PRIu64, n_diverged);
   vf_extra("fopen_calls_seen", "%" PRIu64, n_fopen_seen);
   vf_extra("fclose_calls_seen", "%" PRIu64, n_fclose_seen);
   rm_scratch();
